@@ -59,7 +59,12 @@ pub fn len_per_elem(p: &BigUint, k: usize) -> usize {
 
 /// RFC 9380 section 5.2: `count` elements of F_p^m, each as its m prime-field coordinates.
 pub fn hash_to_field(msg: &[u8], dst: &[u8], p: &BigUint, m: usize, count: usize) -> Vec<Vec<BigUint>> {
-    let l = len_per_elem(p, 128);
+    hash_to_field_k(msg, dst, p, m, count, 128)
+}
+
+/// the same with an explicit security parameter k (RFC 9380 section 5.1: L = ceil((ceil(log2 p) + k) / 8))
+pub fn hash_to_field_k(msg: &[u8], dst: &[u8], p: &BigUint, m: usize, count: usize, k: usize) -> Vec<Vec<BigUint>> {
+    let l = len_per_elem(p, k);
     let uniform = expand_message_xmd(msg, dst, count * m * l);
     let mut out = Vec::with_capacity(count);
     for i in 0..count {
